@@ -334,7 +334,8 @@ def _meta(m):
 
 
 def _join(xs):
-    return ' '.join(xs) if xs else ABSENT
+    """id lists (subcat, members, frame senses) stay sequences; absent = empty"""
+    return list(xs) if xs else []
 
 
 def flat(res: dict) -> dict:
